@@ -393,7 +393,7 @@ class Acl(AceGroup):
             if isinstance(item, (Ace, Remark)):
                 ungrouped_l.append(item)
             elif isinstance(item, AceGroup):
-                identity_d.setdefault(item.name, dict(uuid=item.uuid, note=item.note))
+                identity_d.setdefault(item.name, dict(uuid=item.uuid, note=item.note, sequence=item.sequence))
                 _ungrouped = self._ungroup(item.items)
                 ungrouped_l.extend(_ungrouped)
 
